@@ -158,10 +158,6 @@ func (b *Blob) Len() int {
 
 // View implements blob.ViewBlob
 func (b *Blob) View(start, end int64) (blob.Blob, error) {
-	if start == 0 && end == atomic.LoadInt64(&b.length) {
-		return b, nil
-	}
-
 	var newBlob *Blob
 	value := safejs.Safe(b.JSValue())
 	subarray, err := value.Call("subarray", start, end)
